@@ -81,7 +81,7 @@ func main() {
 		m := u.MACs[2+rng.Intn(3)]
 		ip := u.IP4s[2+rng.Intn(3)]
 		dhcp := func(now int64) string { return tables.RxTok(m, "4", u.IP4s[6], nil, 3, now) }
-		ops := []string{"U," + tables.MacTok(m) + "," + tables.IPTok(ip) + ",1,10", dhcp(20), "N"}
+		ops := []string{"U," + tables.MacTok(m) + "," + tables.IPTok(ip) + "," + strconv.Itoa(rng.Pick(1, 1001, 2101)) + ",10", dhcp(20), "N"}
 		now := int64(20)
 		for j := 0; j < 2+rng.Intn(5); j++ {
 			switch rng.Intn(5) {
@@ -89,7 +89,7 @@ func main() {
 				now += int64(rng.Pick(100, 301, 4000))
 				ops = append(ops, "P,"+strconv.FormatInt(now, 10))
 			case 1:
-				ops = append(ops, "M,"+strconv.Itoa(rng.Intn(5))+","+tables.IPTok(ip)+","+strconv.Itoa(1+rng.Intn(2)))
+				ops = append(ops, "M,"+strconv.Itoa(rng.Intn(5))+","+tables.IPTok(ip)+","+strconv.Itoa(rng.Pick(1, 2, 1001, 2002, 120, 2110)))
 			case 2:
 				now += 5
 				ops = append(ops, dhcp(now), "N")
@@ -98,7 +98,7 @@ func main() {
 				ops = append(ops, tables.RxTok(m, "4", u.IP4s[2+rng.Intn(3)], nil, 0, now), "N")
 			case 4:
 				now += 5
-				ops = append(ops, "U,"+tables.MacTok(m)+","+tables.IPTok(u.IP4s[2+rng.Intn(3)])+",2,"+strconv.FormatInt(now, 10))
+				ops = append(ops, "U,"+tables.MacTok(m)+","+tables.IPTok(u.IP4s[2+rng.Intn(3)])+","+strconv.Itoa(rng.Pick(2, 1001, 2102))+","+strconv.FormatInt(now, 10))
 			}
 		}
 		now += 5
@@ -117,9 +117,9 @@ func main() {
 			r.Stat("class.exhaustive", 1)
 		})
 	}
-	nConf, nDHCP := 400, 500
+	nConf, nDHCP, nName := 400, 500, 400
 	if r.Thorough() {
-		nConf, nDHCP = 8000, 10000
+		nConf, nDHCP, nName = 8000, 10000, 8000
 	}
 	for i := 0; i < nDHCP; i++ {
 		ops := g.DHCPExchangeHistory()
@@ -130,6 +130,18 @@ func main() {
 		r.Stat("class.dhcp-exchange", 1)
 		// the same class against the reference (kind t6c)
 		ops2 := g.DHCPExchangeHistory()
+		ips2, _ := tables.Candidates(cfg, ops2)
+		r.Do("t6c", append([]string{cfg.Tok(), "0", tables.IPsTok(ips2)}, ops2...)...)
+	}
+	// learned names over all four attributes, identical repeats through every source
+	for i := 0; i < nName; i++ {
+		ops := g.NameRepeatHistory()
+		r.Do("t6", append([]string{cfg.Tok(), "0"}, ops...)...)
+		r.Stat("class.name-repeat", 1)
+		ops2 := g.NameRepeatHistory()
+		if i%4 == 1 {
+			ops2 = tables.RawOps(ops2, rng, 0, func(k string) { r.Stat(k, 1) })
+		}
 		ips2, _ := tables.Candidates(cfg, ops2)
 		r.Do("t6c", append([]string{cfg.Tok(), "0", tables.IPsTok(ips2)}, ops2...)...)
 	}
